@@ -20,7 +20,7 @@ class Group:
     def __init__(self, name, unit, harness, entry=None, enforce=None, replace=(), loop_contracts=False, unwind=None,
                  backend='sat', timeout=600, kind='unbounded', bound=None, clause='', defines=(), checks=None,
                  expect='pass', replay=None, tier='quick', extra=(), canary=True, unwindset=(), object_bits=None,
-                 inputs=(), nondet_static=False, no_standard_checks=False, unwind_by=None):
+                 inputs=(), nondet_static=False, no_standard_checks=False, unwind_by=None, unwind_claims=()):
         self.name, self.unit, self.harness = name, unit, harness
         self.entry = entry or 'harness'
         self.enforce, self.replace = enforce, list(replace)
@@ -36,6 +36,10 @@ class Group:
         self.object_bits = object_bits
         self.inputs = list(inputs)
         self.unwind_by = dict(unwind_by or {})
+        # regexes of functions whose loops are unwound to a bound that is COMPLETE for the operand width: a failing
+        # unwinding assertion there is non-termination within the type's range, i.e. a violation.  Any other failing
+        # unwinding assertion only says that the harness bound was too small and is reported as undecided.
+        self.unwind_claims = list(unwind_claims)
 
 
 class Result:
@@ -159,6 +163,8 @@ def run_group(g, workdir):
         if l['name'].startswith('__CPROVER') or not loc.get('file'):
             continue
         fn = l['name'].rsplit('.', 1)[0]
+        if fn in g.replace:
+            continue   # body is replaced by the contract; unwinding it before dfcc only inflates goto-instrument (measured: 31 GB)
         bound = None
         if mk:
             bound = g.unwind_by.get(f'{mk[0]}#{mk[1]}')
@@ -243,8 +249,16 @@ def run_group(g, workdir):
             have = [p for p in r.props if 'canary' in (p[1] or '') and (p[0] or '').startswith(g.entry + '.')]
             canary = [p for p in canary if (p[0] or '').startswith(g.entry + '.')]
             r.canary_ok = bool(have) and len(canary) == len(have)
+        def is_unwind(p):
+            return '.unwind.' in (p[0] or '') or 'unwinding assertion' in (p[1] or '')
+        weak = [p for p in real if is_unwind(p) and not any(re.match(c, p[0] or '') for c in g.unwind_claims)]
+        real = [p for p in real if p not in weak]
         r.failed = real
         r.status = 'fail' if real else 'pass'
+        if weak and not real:
+            r.status = 'undecided'
+            r.detail = 'unwinding bound too small for ' + ', '.join(p[0] for p in weak[:5]) + ' (a limit of the harness, not a violation)'
+            break
         if any('MODEL-BOUND' in (p[1] or '') for p in real):
             r.status = 'undecided'
             r.detail = 'a capacity bound of a container MODEL was exceeded (raise CXX_VEC_CAP or lower the harness bound)'
